@@ -18,7 +18,7 @@ import (
 	"google.golang.org/protobuf/types/known/durationpb"
 )
 
-var msgKinds = []string{"empty", "ascii", "unicode", "floats", "extremes", "bytes", "map", "oneof", "nested", "wkt", "repeated"}
+var msgKinds = []string{"empty", "ascii", "unicode", "floats", "extremes", "bytes", "map", "oneof", "nested", "wkt", "repeated", "tricky"}
 
 func newMsg() *dynamicpb.Message { return dynamicpb.NewMessage(msgDesc("Msg")) }
 
@@ -144,6 +144,16 @@ func genMsg(r *rand.Rand, kind string, tag int) *dynamicpb.Message {
 		am.Set(am.Descriptor().Fields().ByName("type_url"), protoreflect.ValueOfString(a.GetTypeUrl()))
 		am.Set(am.Descriptor().Fields().ByName("value"), protoreflect.ValueOfBytes(a.GetValue()))
 		m.Set(fd(m, "kind_e"), protoreflect.ValueOfEnum(protoreflect.EnumNumber(1+r.Intn(2))))
+	case "tricky":
+		// strings that stress JSON re-writing and URL embedding: a value ending in a backslash, followed (in field
+		// order) by values with spaces, quotes, escapes-looking text and URL metacharacters
+		setStr(m, "name", "shelves\\")
+		setStr(m, "parent", "war and peace \"quoted\" \\\" x")
+		tags := m.Mutable(fd(m, "tags")).List()
+		for _, t := range []string{"page two", "a\\", " b c ", "%2F&x=1#frag?q", "\\u0041 \\n", "tab\there"} {
+			tags.Append(protoreflect.ValueOfString(t))
+		}
+		setStr(m, "text", "last one")
 	case "repeated":
 		tags := m.Mutable(fd(m, "tags")).List()
 		for i, n := 0, 1+r.Intn(5); i < n; i++ {
